@@ -648,7 +648,10 @@ class merge_plan:
                 if matches:
                     choices = choice_point(atom, matches)
                     # ignore what dropped out, at this juncture we don't care.
-                    choices.reduce_atoms(self.insoluble)
+                    choices.reduce_atoms(
+                        self.insoluble,
+                        skip_built_depends=not self.process_built_depends,
+                    )
                     if not choices:
                         # and was intractable because it has a hard dep on an
                         # unsolvable atom.
